@@ -1,0 +1,41 @@
+// Copyright © 2024 Attestant Limited.
+// Licensed under the Apache License, Version 2.0 (the "License");
+// you may not use this file except in compliance with the License.
+// You may obtain a copy of the License at
+//
+//     http://www.apache.org/licenses/LICENSE-2.0
+//
+// Unless required by applicable law or agreed to in writing, software
+// distributed under the License is distributed on an "AS IS" BASIS,
+// WITHOUT WARRANTIES OR CONDITIONS OF ANY KIND, either express or implied.
+// See the License for the specific language governing permissions and
+// limitations under the License.
+
+//go:build verif
+
+package standard
+
+import "github.com/attestantio/go-eth2-client/spec/phase0"
+
+// VerifPendingAttestationSlots returns the slots currently marked as having pending attestations.
+// For external runtime monitors only.
+func (s *Service) VerifPendingAttestationSlots() []phase0.Slot {
+	s.pendingAttestationsMutex.RLock()
+	defer s.pendingAttestationsMutex.RUnlock()
+	slots := make([]phase0.Slot, 0, len(s.pendingAttestations))
+	for slot := range s.pendingAttestations {
+		slots = append(slots, slot)
+	}
+	return slots
+}
+
+// VerifSubscriptionInfoEpochs returns the epochs for which subscription information is held.
+func (s *Service) VerifSubscriptionInfoEpochs() []phase0.Epoch {
+	s.subscriptionInfosMutex.Lock()
+	defer s.subscriptionInfosMutex.Unlock()
+	epochs := make([]phase0.Epoch, 0, len(s.subscriptionInfos))
+	for epoch := range s.subscriptionInfos {
+		epochs = append(epochs, epoch)
+	}
+	return epochs
+}
